@@ -49,7 +49,7 @@ type c11Stream struct {
 	holdFrom int  // ... from the holdFrom-th Close call on
 	clHeld   int  // Close calls currently blocked
 	pendW    []*c11Write
-	sent     []uint32 // ids of frames whose Write returned success
+	sent     []uint64 // id<<8|type of frames whose Write returned success
 	hang     time.Duration
 }
 
@@ -163,7 +163,7 @@ func (s *c11Stream) Write(p []byte) (int, error) {
 		}
 	}
 	if ok && w.err == nil {
-		s.sent = append(s.sent, w.id)
+		s.sent = append(s.sent, uint64(w.id)<<8|uint64(w.typ))
 	}
 	s.mu.Unlock()
 	if !ok {
@@ -200,19 +200,19 @@ func (s *c11Stream) Close() error {
 // ---- driver side ----
 
 // pendingWrite reports whether a Write carrying message id is blocked in the stream.
-func (s *c11Stream) pendingWrite(id uint32) *c11Write {
+func (s *c11Stream) pendingWrite(id uint32, typ uint8) *c11Write {
 	for _, w := range s.pendW {
-		if w.id == id && !w.freed {
+		if w.id == id && w.typ == typ && !w.freed {
 			return w
 		}
 	}
 	return nil
 }
 
-func (s *c11Stream) releaseWrite(id uint32, n int, err error) bool {
+func (s *c11Stream) releaseWrite(id uint32, typ uint8, n int, err error) bool {
 	s.mu.Lock()
 	defer s.mu.Unlock()
-	w := s.pendingWrite(id)
+	w := s.pendingWrite(id, typ)
 	if w == nil {
 		return false
 	}
@@ -234,6 +234,16 @@ func (s *c11Stream) feed(frag []byte, eof bool) {
 // readerIdle: every queued fragment was consumed and the reader is blocked in a new Read.
 func (s *c11Stream) readerIdle() bool {
 	return len(s.rdQ) == 0 && len(s.left) == 0 && s.rdEnter == s.rdReturn+1
+}
+
+// wasSent: a Write carrying (id, typ) has returned success.
+func (s *c11Stream) wasSent(id uint32, typ uint8) bool {
+	for _, x := range s.sent {
+		if x == uint64(id)<<8|uint64(typ) {
+			return true
+		}
+	}
+	return false
 }
 
 func (s *c11Stream) kill(rdErr error, half bool) {
